@@ -136,7 +136,7 @@ func runCheck(prop, tier string, seed int) int {
 			quickFail[k.Obligation] = true
 		}
 	}
-	outDir := filepath.Join(verifDir, "out", "smt", prop)
+	outDir := filepath.Join(outRoot, "smt", prop)
 	os.RemoveAll(outDir)
 	res := verifyFns(g, keys, outDir, tier, seed)
 
@@ -196,7 +196,7 @@ func runCheck(prop, tier string, seed int) int {
 	// classify failures against the known-findings file
 	violations := 0
 	var knownHit []string
-	replayDir := filepath.Join(verifDir, "out", "replay", prop)
+	replayDir := filepath.Join(outRoot, "replay", prop)
 	os.MkdirAll(replayDir, 0o755)
 	seenStable := map[string]bool{}
 	for i, o := range failed {
@@ -376,9 +376,13 @@ func writeEvidence(prop, tier string, seed int, res []*fnResult, all []*Oblig, c
 		cov["samples"] = []interface{}{}
 	}
 	ev := evidence{PropertyID: prop, Tier: tier, Seed: seed, Level: "proof", Coverage: cov, Assumptions: assumptions, WallS: wall, Violations: violations}
-	os.MkdirAll(filepath.Join(verifDir, "evidence"), 0o755)
+	evDir := filepath.Join(verifDir, "evidence")
+	if os.Getenv("GOVC_OUT") != "" {
+		evDir = filepath.Join(outRoot, "evidence")
+	}
+	os.MkdirAll(evDir, 0o755)
 	b, _ := json.MarshalIndent(ev, "", " ")
-	os.WriteFile(filepath.Join(verifDir, "evidence", prop+".json"), b, 0o644)
+	os.WriteFile(filepath.Join(evDir, prop+".json"), b, 0o644)
 }
 
 var tagPropRe = regexp.MustCompile(`^(C\d\d)\.`)
